@@ -361,3 +361,54 @@ def r10k(ctx):
                            f"in the wrong place, so its parts are missing from the listing and from every clone of a folder-opened document")
     if n < 1 or not rel:
         raise AnalysisError("R10k: recursion or relative path not found in Container._parse_folder")
+
+
+def r19n(ctx):
+    """The bounds a table reader hands to its rows are the bounds the coordinate was translated to.
+
+    "Every way of addressing … resolves to the same cells."  The ranged readers of Table translate the coordinate once
+    (`x, y, z, t = self._translate_table_coordinates(coord)`) and give each row the column part `(x, z)`; the single-cell and cell-object
+    readers do the same.  The declared table width is used for padding only (`complete=`).  A reader that first clips a bound to the declared
+    width hands its rows a shorter range than its siblings do — rows wider than the column declarations lose their right end in that reader
+    alone.  Rule: in every Table method that unpacks `_translate_table_coordinates`, a name of that unpacking that is passed on inside the
+    coordinate tuple of a row call is never re-assigned (its only stores are the unpacking and a constant-None default).
+    """
+    repo = ctx.repo
+    ctx.rule("R19n", "column bounds passed from a Table reader to its rows are the translated coordinates, never re-assigned in between", floor=4)
+    t = repo.cls("Table")
+    n = 0
+    for name, fs in sorted(t.methods.items()):
+        for f in fs:
+            if f.cls is not t:
+                continue
+            unpack = [a for a in walk_no_nested(f.node) if isinstance(a, ast.Assign) and isinstance(a.value, ast.Call) and call_name(a.value) == "_translate_table_coordinates"
+                      and isinstance(a.targets[0], ast.Tuple)]
+            if not unpack:
+                continue
+            bound = {e.id for a in unpack for e in a.targets[0].elts if isinstance(e, ast.Name)}
+            passed = {}
+            for c in walk_no_nested(f.node):
+                if isinstance(c, ast.Call) and isinstance(c.func, ast.Attribute) and not (isinstance(c.func.value, ast.Name) and c.func.value.id == "self") and c.args \
+                        and isinstance(c.args[0], ast.Tuple):
+                    for e in c.args[0].elts:
+                        if isinstance(e, ast.Name) and e.id in bound:
+                            passed.setdefault(e.id, c)
+            for v, call in sorted(passed.items()):
+                n += 1
+                other = []
+                for a in walk_no_nested(f.node):
+                    tg = a.targets if isinstance(a, ast.Assign) else [a.target] if isinstance(a, (ast.AugAssign, ast.AnnAssign)) else []
+                    if a in unpack or not tg:
+                        continue
+                    if any(isinstance(x, ast.Name) and x.id == v and isinstance(x.ctx, ast.Store) for t_ in tg for x in ast.walk(t_)):
+                        if isinstance(a, ast.Assign) and isinstance(a.value, ast.Constant) and a.value.value is None:
+                            continue
+                        other.append(a)
+                ok = not other
+                ctx.instance("R19n", f"{f.file}:{f.ident}", f"`{v}` reaches {norm(call, 40)} as translated", ok=ok, nontrivial=True, line=call.lineno)
+                if not ok:
+                    ctx.report("R19n", f, other[0], norm(other[0], 50),
+                               f"{f.ident} re-assigns the translated bound (`{norm(other[0], 50)}`) before handing it to `{norm(call, 40)}`: this reader then resolves the "
+                               f"coordinate to other cells than its siblings — e.g. a range clipped to the declared width loses the right end of rows that are wider")
+    if n < 4:
+        raise AnalysisError(f"R19n: only {n} translated bound(s) passed on to a row call found")
